@@ -2114,9 +2114,9 @@ func (is IndexSet) tagValueIterator(name, key []byte) (TagValueIterator, error) 
 // TagKeyHasAuthorizedSeries determines if there exists an authorized series for
 // the provided measurement name and tag key.
 func (is IndexSet) TagKeyHasAuthorizedSeries(auth query.FineAuthorizer, name, tagKey []byte) (bool, error) {
-	if !is.HasInmemIndex() && query.AuthorizerIsOpen(auth) {
-		return true, nil
-	}
+	// The disk-based index keeps the entry of a tag key after its last series was
+	// deleted (until its files are compacted), so the key's series are looked at even
+	// when every series may be read.
 
 	release := is.SeriesFile.Retain()
 	defer release()
